@@ -138,6 +138,59 @@ CHECKS = {
    note="gob and json byte formats are trusted (typed wire values); RawValue / ResolveDocPath are functions of fields the theorem shows unchanged; aliasing of returned bytes is checked impl-side only.",
    technique="Coq proof (round trip for every map-iteration permutation, observational equality) + per-run differential on real gob round trips",
    design="5 C13"),
+ "C03": dict(
+   text="Theorems (Properties/C03.v, 15, all closed) on the dataset->entries->tree pipeline: C03_graph_order (for every dataset with unique graph names and EVERY permutation of the Go map ds.Graphs, "
+        "entries_from_rdf is equal on success and an error on both sides otherwise; _precise: literally the same outcome unless both stop in assertDatasetConsistency, where only which inconsistency is "
+        "reported may differ - _same_error_refuted gives the witness, replayed 300x on the real code), C03_sort_canonical, C03_insertion_order(_entries,_fail) (same tree for every reordering of "
+        "AddEntriesToMerkleTree, via SMT.add_all_perm_root), C03_deterministic (whole pipeline invariant under every permutation of the only map the code ranges over), C03_empty_tree / C03_given_tree "
+        "(caller-provided tree), C03_value_binding (two entry lists equal except for one value with different encodings have different roots OR an explicit Collision; via SMT.Sound.binding, C04 injectivity), "
+        "C03_spelling_dataset (respelling literals with equal conversions leaves entries unchanged when quads keep their place). PARTIAL: invariance under JSON re-presentation (key order, array permutation, "
+        "whitespace, number spellings, blank-node relabelling, inline vs remote context) is json-gold's and is checked metamorphically per run (~10k implementation evaluations: six transformations composed, "
+        "50 repeats in one process and in parallel goroutines, provided trees, per-leaf replacement); entries and ROOT of the model are compared with the implementation on ~400 datasets under several graph orders.",
+   note="Known findings D21 (+2 variants): lexical respelling of a typed literal can renumber siblings (json-gold / URDNA2015 order effect). C03_labels (blank-label renaming at dataset level) is not proved.",
+   technique="Coq proof (permutation invariance of the model, SMT insertion-order independence and binding) + metamorphic search on the implementation + per-run model/implementation differential",
+   design="5 C03"),
+ "C05": dict(
+   text="Theorems (Properties/C05.v, 8, all closed) over a model of ToCoreClaim with a two-cell store (caller's options object / local copy) and of the go-iden3-core claim setters: C05_layout "
+        "(i0 = schema + 2^128*(subj + 8*exp + 16*upd + 32*mrk) + 2^160*version, v0 = nonce + 2^64*(exp mod 2^64), id and root at the requested positions), C05_slots, C05_schema_hash (last 16 digest bytes), "
+        "C05_errors (exact iff for when a claim is produced, incl. 'root requested for a serialized schema is an error'), C05_pure (the caller's options come back unchanged), C05_history (for every call list "
+        "over shared option/credential objects the i-th result equals that call made first), C05_deterministic (same result for every permutation of the term definitions). Per run ~1800 call histories / 3400 "
+        "calls: 288-point option grid, merklized and serialized schemas with all 2^4 slot subsets, with/without subject id and expiration (incl. pre-1970), malformed attributes, two loaders serving different "
+        "schema documents at the same URL; observables: the 8 raw slots decoded from MarshalBinary by the harness's own decoder, error class, deep compare of options and credential afterwards.",
+   note="Keccak-256 (own implementation in the harness as oracle), DID->ID, the Merkle root, field encodings and JSON-LD term definitions are oracles. 'Credential unchanged' is checked impl-side (the model has no write to it).",
+   technique="Coq proof (layout, purity over a store model, history independence) + per-run model/implementation differential over option grids and call histories",
+   design="5 C05"),
+ "C17": dict(
+   text="Theorems (Properties/C17.v, 14, all closed): C17_agree (index i reported => i in {2,3,6,7} and every claim of a credential of that type holds the field's encoding in raw slot i), C17_claim_slots, "
+        "C17_agree_iff (injective designations) / C17_first_slot, C17_malformed / C17_context_error / C17_not_named / C17_unknown_type (error cases of both operations coincide), C17_order (lookup independent "
+        "of term-map order, over Permutation), C17_name_or_iri, C17_grammar (iden3:v1: + 1-4 key=path parts), C17_facade (the processor facade returns its component's result, missing component is an error) and "
+        "C17_facade_json. Per run: EXHAUSTIVE over the 1296 slot assignments x lookups by type name and IRI x claims of credentials of those types, malformed attributes, alias-term schemas, facade vs direct "
+        "parser for every option field; ~28000 model evaluations.",
+   note="Same oracles as C05. Observation O3 (GetFieldSlotIndex(\"\")) is excluded by hypothesis.",
+   technique="Coq proof (lookup/claim-building agreement, order independence) + exhaustive per-run differential over all slot assignments",
+   design="5 C17"),
+ "C14": dict(
+   text="Theorems (Properties/C14.v, all closed) over a GENERIC model of encoding/json's struct codec driven by field descriptors that a go/ast translator REGENERATES from verifiable/*.go on every run "
+        "(16 structs, 3 proof wire structs, Merklize's call sequence and deleted keys, extractProof dispatch, custom-codec set; aborts on anything it does not know): C14_lossless (for every document of the "
+        "stated supported shape the struct view minus proof and the original minus proof have equal normalised members up to RFC3339 re-spelling and null-vs-absent optionals; side conditions vm_computed on the "
+        "generated lists: C14_descriptors_lossless, C14_merklize_deletes_only_proof), C14_same_root, C14_proof_independent, C14_time_roundtrip, C14_roundtrip (decode/encode/decode, known and unknown proof kinds), "
+        "C14_did_roundtrip. PARTIAL: encoding/json's reflection semantics are modelled and differentially validated, not verified. Per run ~680 documents: W3CCredential.Merklize().Root() vs "
+        "MerklizeJSONLD(original - proof), independence of proofs, marshal/unmarshal equality, DID documents; re-encoded JSON trees compared with the Coq codec.",
+   note="Hypotheses about external code only: float64 print/parse idempotent; merkletree.Proof codec idempotent. Hook verifiable/verif_hooks_c14.go.",
+   technique="Coq proof (generic struct codec over descriptors regenerated by a translator; side conditions by vm_compute) + per-run model/implementation differential",
+   design="5 C14"),
+ "C11": dict(
+   text="Theorems (Properties/C11.v, 18, all closed) over a Coq model of the JSON-LD SUBSET the generators emit (context parse with term definitions, prefixes, aliases, property- and type-scoped "
+        "contexts with reverting; document walk `facts`) and FAITHFUL models of the repository's five resolvers: C11_doc_vs_store (the resolver's path is the path under which the document states the field, "
+        "under the explicit D8 boundary `ok_along`), C11_field_is_fact, C11_ctx_vs_doc (field path from context = document-side path), C11_datatype(_recorded), C11_type_id (TypeIDFromContext = rdf:type fact "
+        "of a root node of that type), C11_numeric_segment / _errors (on an array the segment selects a member, out of range is an error), six C11_errors_* theorems (unresolvable path / failing context => Err); "
+        "refuted with witnesses where the current code violates the property: C11_doc_vs_store_refuted_type_scoped (D8), C11_numeric_segment_on_non_array_refuted, C11_single_member_index_refuted, "
+        "C11_missing_index_refuted (D31). PARTIAL by construction (model-vs-model proof; full JSON-LD is not modelled): both sides are tied to the code per run - the resolver models against /repo's resolvers "
+        "(path parts / error class) and `facts` against the entries MerklizeJSONLD stores - on ~200 generated schemas/documents incl. multi-typed nodes and context switches between calls; impl-side oracles "
+        "compare doc path = context path = stored key, datatypes, type id and schema hash IRI.",
+   note="Known findings D8, D14-non-array (pinned by the repository's TestIPFSContext), D14-single-member, D31. Document-order vs canonical-order indices are compared up to index values (cf. D13).",
+   technique="Coq proof over a JSON-LD subset model + faithful resolver models (with refutation witnesses) + per-run two-sided model/implementation differential",
+   design="5 C11"),
  "C04": dict(
    text="Theorems (Properties/C04.v) over the executable model of the value-encoding code, for every hasher, lexical form and odd modulus p>=3: "
         "integer types accepted exactly in range and encoded as v / p+v without reduction, injective per type, spelling-independent; booleans; "
@@ -179,7 +232,7 @@ def main():
             "guard": "verif",
             "enable": "go build -tags verif (harness module /verif/harness with replace => /repo)",
             "baseline_off_cmd": "python3 /verif/engine/baseline.py",
-            "source_commits": ["9e3fb9e", "2ae4494", "025b116", "4a2704c", "3c277b5"],
+            "source_commits": ["9e3fb9e", "2ae4494", "025b116", "4a2704c", "3c277b5", "14552f9"],
             "add_only": True,
         },
         "engines": [{"name": "coq-proof+correspondence", "path": "/verif/check",
